@@ -2,17 +2,17 @@ package props
 
 import (
 	"fmt"
-	"strings"
 	"math/big"
 	"sort"
+	"strings"
 	"testing"
 
 	sdk "github.com/cosmos/cosmos-sdk/types"
 	banktypes "github.com/cosmos/cosmos-sdk/x/bank/types"
 
 	auctiontypes "github.com/comdex-official/comdex/x/auction/types"
-	collectortypes "github.com/comdex-official/comdex/x/collector/types"
 	auctionsV2types "github.com/comdex-official/comdex/x/auctionsV2/types"
+	collectortypes "github.com/comdex-official/comdex/x/collector/types"
 	liqV2types "github.com/comdex-official/comdex/x/liquidationsV2/types"
 
 	"verif/ev"
@@ -30,13 +30,14 @@ type c10Mon struct {
 	u      *cdpU
 	rec    *ev.Rec
 	st     *settleTracker
-	led    map[awaitKey]*aucLedger       // per auction (generation, auction id)
+	led    map[awaitKey]*aucLedger        // per auction (generation, auction id)
 	unso   map[string]map[string]*big.Int // module -> denom -> unsolicited coins
 	disc   map[string]*big.Int
 	premV2 sdk.Dec
 	discV2 sdk.Dec
 	// collectorOut: coins that left the fee collector account in the current event, per denom
 	collectorOut map[string]*big.Int
+	changes      []string // witness: auction / limit-bid / reserve records changed by the current event
 }
 
 func newC10Mon(u *cdpU, rec *ev.Rec) *c10Mon {
@@ -126,7 +127,7 @@ func (m *c10Mon) custody(mod string, acc map[string]*big.Int, fees map[string]*b
 				lab = "C10/custody/auctionV1/v2-surplus-activation-fails-after-moving-the-lot"
 			}
 			m.rec.Violate(lab, fmt.Sprintf("custody of %s minus what live auctions, standing bids, limit-bid deposits and booked fees account for changed %s -> %s (%s)", mod, old, disc, d),
-				map[string]interface{}{"event": e.String(), "denom": d, "custody": bal.String(), "accounted": a.String(), "booked_fees": f.String(), "unsolicited": un.String()})
+				map[string]interface{}{"event": e.String(), "denom": d, "custody": bal.String(), "accounted": a.String(), "booked_fees": f.String(), "unsolicited": un.String(), "records_changed_by_this_event": m.changes})
 		}
 		m.disc[key] = disc
 	}
@@ -185,6 +186,30 @@ func (m *c10Mon) Observe(pre, post *cdpSnap, e *cdpEvent) {
 		}
 		feesV2[d].Add(feesV2[d], f.BigInt())
 	}
+	m.changes = nil
+	for id, a := range pre.AucV2 {
+		if _, still := post.AucV2[id]; !still {
+			lv := pre.LockedV2[a.LockedVaultId]
+			m.changes = append(m.changes, fmt.Sprintf("auction %d ended (initiator %s, target %s, debt left before %s, collateral left before %s, bonus %s)", id, lv.InitiatorType, lv.TargetDebt, a.DebtToken, a.CollateralToken, a.BonusAmount))
+		}
+	}
+	for _, lb := range pre.LimitBids {
+		left := "deleted"
+		for _, pb := range post.LimitBids {
+			if pb.BidderAddress == lb.BidderAddress && pb.DebtTokenId == lb.DebtTokenId && pb.CollateralTokenId == lb.CollateralTokenId && pb.PremiumDiscount.Equal(lb.PremiumDiscount) {
+				left = pb.DebtToken.String()
+			}
+		}
+		if left != lb.DebtToken.String() {
+			m.changes = append(m.changes, fmt.Sprintf("limit bid (debt %d, collateral %d, bucket %s) of %s: %s -> %s", lb.DebtTokenId, lb.CollateralTokenId, lb.PremiumDiscount, lb.BidderAddress, lb.DebtToken, left))
+		}
+	}
+	for k, v := range post.Reserve {
+		if o, ok := pre.Reserve[k]; ok && !o.Equal(v) {
+			m.changes = append(m.changes, fmt.Sprintf("app reserve (app %d, asset %d): %s -> %s", k.App, k.Asset, o, v))
+		}
+	}
+	sort.Strings(m.changes)
 	m.custody(auctionsV2types.ModuleName, accountedV2(post), feesV2, post, e, ctx)
 	m.custody(auctiontypes.ModuleName, accountedV1(post), nil, post, e, ctx)
 
@@ -309,7 +334,9 @@ func (m *c10Mon) Observe(pre, post *cdpSnap, e *cdpEvent) {
 			closed = append(closed, k)
 		}
 	}
-	sort.Slice(closed, func(i, j int) bool { return closed[i].Gen*1_000_000+int(closed[i].ID) < closed[j].Gen*1_000_000+int(closed[j].ID) })
+	sort.Slice(closed, func(i, j int) bool {
+		return closed[i].Gen*1_000_000+int(closed[i].ID) < closed[j].Gen*1_000_000+int(closed[j].ID)
+	})
 	for _, k := range closed {
 		m.rec.Count(fmt.Sprintf("auctions_closed_gen%d", k.Gen), 1)
 		delete(m.led, k)
